@@ -1,6 +1,6 @@
-\* emission (quick): 10 kind pairs x 2 constructions, every behaviour of up to 3 calls, all edges printed
+\* emission (quick): 7 kind pairs x 1 construction, every behaviour of up to 3 calls, all edges printed
 CONSTANTS NT = 3  NV = 1  MaxLevel = 3
-  KindChoices <- McKindsEmit  TempChoices <- McTempsTwo  LinkPairs <- McLinks
+  KindChoices <- McKindsEmitQuick  TempChoices <- McTempsOne  LinkPairs <- McLinks  RampSteps <- McRamp
 ACTION_CONSTRAINT Emit
 INVARIANT EmitState
 INIT Init
@@ -18,6 +18,9 @@ INVARIANT ReadBack
 INVARIANT LinkEquality
 INVARIANT FluidsAndCustomKeepDimensions
 INVARIANT InertRefusesOffInput
+INVARIANT Composes
+INVARIANT CopyIsFaithful
 PROPERTY RefusalsChangeNothing
 PROPERTY ConstructionFixed
+PROPERTY CopyLeavesOthers
 CHECK_DEADLOCK FALSE
